@@ -10,6 +10,7 @@
 (* metamorphic families on every run, including grids far larger than the specification is asked to  *)
 (* enumerate; lcm is tied to the specification by C01's families.                                    *)
 From Coq Require Import Lqa.
+From LCM Require Import Base.ArrOps Model.Dispatchers Model.QOps Gen.ModelFunctions Proofs.C11_ModelFunctions.
 From LCM Require Import Base.Prelude Base.Arr Spec.Lang Spec.Bellman.
 From LCM Require Import Proofs.Spec_Algebra Proofs.Spec_Restrictions Proofs.C11_Affine Proofs.C11_Horizon.
 Local Open Scope Q_scope.
@@ -123,6 +124,49 @@ Proof.
   split; [|split; [vm_compute; reflexivity|vm_compute; discriminate]].
   intros f Hf. simpl in Hf. repeat (destruct Hf as [<-|Hf]; [simpl; intuition discriminate|]). contradiction.
 Qed.
+
+(* ---- about the regenerated Bellman operator of the code (Gen/ModelFunctions.v) ------------------ *)
+(* multiply_weights: at every node of the grid of stochastic next values the weight is the product   *)
+(* of the variables' own weights (expectation = weighted sum over stochastic nodes)                  *)
+Theorem C11_code_node_weight_is_product_of_the_variables_weights :
+  forall (svars : list string) (weights : list (string * qarr)),
+  NoDup (multiply_weights_arg_names svars) ->
+  (forall w, In w (map (lookup weights) (multiply_weights_arg_names svars)) -> tl (shape w) = []) ->
+  forall idx, in_bounds (node_shape svars weights) idx ->
+  qget (get_multiply_weights svars weights) idx
+  = qprod_list (map (fun i => qget (nth i (map (lookup weights) (multiply_weights_arg_names svars)) dflt_arr)
+                                   [nth i idx 0%nat])
+                    (seq 0 (length (multiply_weights_arg_names svars)))).
+Proof. intros svars weights Hnd. exact (node_weights_entry svars Hnd weights). Qed.
+Print Assumptions C11_code_node_weight_is_product_of_the_variables_weights.
+
+(* u_and_f of a period that is not the last: ONE discounting step on the weighted sum over all nodes *)
+Theorem C11_code_one_discounting_step :
+  forall (P F : Type) (beta_of : P -> Q)
+         (current_u_and_f : list (string * qarr) -> nat -> P -> Q * F)
+         (next_state next_weights : list (string * qarr) -> nat -> P -> list (string * qarr))
+         (scalar_value_function : func)
+         (state_variables choice_variables stochastic_variables value_function_arguments : list string)
+         (period : nat) (kwargs : list (string * qarr)) (params : P),
+  let sc := (select state_variables kwargs ++ select choice_variables kwargs)%list in
+  let weights := next_weights sc period params in
+  let names := multiply_weights_arg_names stochastic_variables in
+  let ws := map (lookup weights) names in
+  let ccvs := productmap scalar_value_function (map (fun var => ("next_" ++ var)%string) stochastic_variables)
+                (next_state sc period params ++ select value_function_arguments kwargs)%list in
+  NoDup names -> (forall w, In w ws -> tl (shape w) = []) ->
+  wf ccvs /\ shape ccvs = node_shape stochastic_variables weights ->
+  u_and_f P F beta_of current_u_and_f next_state next_weights scalar_value_function
+          state_variables choice_variables stochastic_variables value_function_arguments period kwargs params
+  = (fst (current_u_and_f sc period params)
+     + beta_of params *
+       C11_ModelFunctions.qsum
+         (map (fun idx => qget ccvs idx *
+                          qprod_list (map (fun i => qget (nth i ws dflt_arr) [nth i idx 0%nat]) (seq 0 (length names))))
+              (indices (node_shape stochastic_variables weights))),
+     snd (current_u_and_f sc period params)).
+Proof. exact u_and_f_is_one_bellman_step. Qed.
+Print Assumptions C11_code_one_discounting_step.
 
 Example C11_nonvacuous :
   veq (vaff 2 3 (vmaxl [VFin 1; VNegInf; VFin 5])) (vmaxl (map (vaff 2 3) [VFin 1; VNegInf; VFin 5])) /\
